@@ -414,6 +414,26 @@ def becke_contracts(col, params, only=None):
         return True, None
     check("purity", purity)
 
+    def geometry_scan():
+        """'for any molecule': one instance evaluated along a geometry scan that updates the SAME coordinate array in place answers for
+        the current coordinates, exactly like a fresh instance given a fresh copy."""
+        if m < 2:
+            return True, None
+        c = coords.copy()
+        one = BeckeWeights(radii=cfg["custom"], order=order)
+        for step in range(3):
+            got = np.array([one.generate_weights(points, c, nums, select=a) for a in range(m)])
+            call = one(points, c, nums, indices)
+            fresh = BeckeWeights(radii=cfg["custom"], order=order)
+            want = np.array([fresh.generate_weights(points.copy(), c.copy(), nums.copy(), select=a) for a in range(m)])
+            want_call = BeckeWeights(radii=cfg["custom"], order=order)(points.copy(), c.copy(), nums.copy(), indices.copy())
+            if not (np.array_equal(got, want, equal_nan=True) and np.array_equal(call, want_call, equal_nan=True)):
+                return False, (f"scan step {step}: after the coordinate array was updated in place the instance returns numbers that differ from "
+                               f"a fresh instance's by up to {np.nanmax(np.abs(got - want)):.3g}")
+            c[0] += (0.31 + 0.2 * step) * (c[0] - c[1])          # stretch the bond 0-1 (not a rigid motion), in place
+        return True, None
+    check("geometry-scan-in-place", geometry_scan)
+
 
 # --------------------------------------------------------------------------------------------------- unit-level contracts
 def switch_contracts(col, g):
